@@ -52,6 +52,15 @@ def main():
     if a.twins:
         import twins
         muts = [dict(t, expect=[], silent=t['props'], props=[]) for t in twins.TWINS]
+        # behaviour-preserving refactorings written by independent sub-agents (selftest/refactors/<id>/patch.diff): every check silent
+        rd = os.path.join(VERIF, 'selftest', 'refactors')
+        allp = ['C%02d' % i for i in range(1, 21)]
+        expected = json.load(open(os.path.join(rd, 'EXPECTED_ALARMS.json'))) if os.path.exists(os.path.join(rd, 'EXPECTED_ALARMS.json')) else {}
+        for d in sorted(os.listdir(rd)) if os.path.isdir(rd) else []:
+            pp = os.path.join(rd, d, 'patch.diff')
+            if os.path.exists(pp):
+                sil = [p_ for p_ in allp if p_ not in expected.get(d, {})]
+                muts.append({'id': 'refactor:' + d, 'what': 'sub-agent refactoring of the %s code' % d.split('_')[0], 'props': [], 'expect': [], 'silent': sil, 'patch': pp})
     if a.seeded:
         sd = os.path.join(VERIF, 'seeded')
         for d in sorted(os.listdir(sd)) if os.path.isdir(sd) else []:
